@@ -490,7 +490,7 @@ def run_partition(part, tier, seed):
         for tr in ("sgio", "iscsi"):
             for proto in (0, 3, 4, 5, 6, 0x0A):
                 for fmt in (None, 0, 1):
-                    for sid in (None, "", "1a2b3c4d5e6f"):
+                    for sid in (None, "", "1a2b3c4d5e6f", "000000000000", "0", "00"):
                         for route in ("register", "move"):
                             if proto != 5 and (fmt or sid):
                                 continue
